@@ -113,6 +113,9 @@ func (u *vc06Universe) make(e vc06Ev) []byte {
 	}
 	hdr := vc06Hdr(k, useKid, prevs, declared, 2, pal)
 	_, ph := vc06PayloadFor(name)
+	if e.Var == "samepl" && len(e.Prevs) > 0 {
+		_, ph = vc06PayloadFor(e.Prevs[0]) // declares the payload of its first prev: the hash is in the payload store when that prev came with its payload
+	}
 	spec := vc06Spec{HdrJSON: vc06HdrJSON(hdr), PayloadSeg: ph, Key: k.Name, SignAlg: k.Alg}
 	if e.Var == "other-key" {
 		spec.Key, spec.SignAlg = ring.E.Name, ring.E.Alg
@@ -170,6 +173,12 @@ func (u *vc06Universe) payload(e vc06Ev) ([]byte, bool) {
 		return nil, false
 	case "wrong":
 		return []byte("wrong payload bytes"), true
+	case "empty":
+		return []byte{}, true
+	}
+	if e.Var == "samepl" && len(e.Prevs) > 0 {
+		p, _ := vc06PayloadFor(e.Prevs[0])
+		return p, true
 	}
 	if strings.HasPrefix(e.Var, "enc:") {
 		e.Var = "" // the payload of the transaction whose signed content is re-encoded
@@ -301,6 +310,13 @@ func vc06Menu(present []string, maxTx, maxPrevs int, bothOrders bool) []vc06Ev {
 				out = append(out, vc06Ev{Signer: s, Prevs: p, Var: "lc-1", Pay: "right"})
 				out = append(out, vc06Ev{Signer: s, Prevs: p, Var: "other-key", Pay: "right"})
 			}
+		}
+		// a transaction declaring the payload hash of a PRESENT transaction (already in the payload store), offered with other bytes
+		for _, n := range present {
+			if strings.Contains(n, "/") {
+				continue
+			}
+			out = append(out, vc06Ev{Signer: "A", Prevs: []string{n}, Var: "samepl", Pay: "wrong"}, vc06Ev{Signer: "A", Prevs: []string{n}, Var: "samepl", Pay: "empty"})
 		}
 		// causally incomplete: a prev that is not (yet) present — the child of the newest transaction, and a grandchild
 		if len(present) > 0 {
